@@ -313,3 +313,68 @@ func TestF11_SyncAfterRecovery(t *testing.T) {
 		t.Errorf("after Sync and power loss: %q", got)
 	}
 }
+
+// F13 (C16/C03): a record larger than a whole segment (only possible with shrunken thresholds) must
+// not leave an empty sealed segment behind: after a clean reopen that segment became current again
+// and later writes were replayed BEFORE older ones by the next recovery.
+func TestF13_OversizedRecordThenRestartAndCrash(t *testing.T) {
+	fsys := simfs.New()
+	o := opts(fsys, 600, 1<<30, 0.5, false)
+	db := mustOpen(t, fsys, o)
+	if err := db.Put([]byte("k"), bytes.Repeat([]byte("1"), 100)); err != nil { // does not fit an empty 600-byte segment
+		t.Fatal(err)
+	}
+	if err := db.Close(); err != nil {
+		t.Fatal(err)
+	}
+	db = mustOpen(t, fsys, o)
+	if err := db.Put([]byte("k"), []byte("2")); err != nil {
+		t.Fatal(err)
+	}
+	if v, _ := db.Get([]byte("k")); string(v) != "2" {
+		t.Fatalf("before the crash: %q", v)
+	}
+	fsys.Kill()
+	db2 := mustOpen(t, fsys, o)
+	if v, _ := db2.Get([]byte("k")); string(v) != "2" {
+		t.Errorf("after crash recovery the acknowledged overwrite is lost: k = %d bytes (%q...)", len(v), string(v[:1]))
+	}
+}
+
+// F13, second route (C08/C03): recovery truncates an older segment to nothing (its only record is
+// damaged) and seals it; after a clean restart the empty segment must not become current again.
+func TestF13_EmptiedSegmentStaysSealed(t *testing.T) {
+	fsys := simfs.New()
+	o := opts(fsys, 600, 1<<30, 0.5, false)
+	db := mustOpen(t, fsys, o)
+	val := bytes.Repeat([]byte("1"), 70)
+	if err := db.Put([]byte("a"), val); err != nil { // 81 bytes of the 88 a segment holds
+		t.Fatal(err)
+	}
+	if err := db.Put([]byte("b"), val); err != nil { // next segment
+		t.Fatal(err)
+	}
+	im := fsys.Snapshot()
+	var first string
+	for _, n := range im.Names() {
+		if strings.HasSuffix(n, ".psg") && (first == "" || n < first) {
+			first = n
+		}
+	}
+	im.Files[im.Dir[first]][512+20] ^= 1 // damage the only record of the older segment
+	fs2 := simfs.FromImage(im)
+	o2 := opts(fs2, 600, 1<<30, 0.5, false)
+	db = mustOpen(t, fs2, o2) // recovery
+	if err := db.Close(); err != nil {
+		t.Fatal(err)
+	}
+	db = mustOpen(t, fs2, o2)
+	if err := db.Put([]byte("b"), []byte("2")); err != nil {
+		t.Fatal(err)
+	}
+	fs2.Kill()
+	db = mustOpen(t, fs2, o2)
+	if v, _ := db.Get([]byte("b")); string(v) != "2" {
+		t.Errorf("after crash recovery the acknowledged overwrite of b is lost: %d bytes", len(v))
+	}
+}
